@@ -238,12 +238,17 @@ def request_line(cfg, layer, unit):
         return f"route triplet {b(a >= 0)} {b(c >= 0)} {hexs(dpost)} {hexs(dpre)}"
     if f == "MSTDPET":
         return three_factor_line("mstdp", cfg, B, red, mon["elig_post"].peek(), mon["elig_pre"].peek(), a, c, lt=False)
+    if f == "LinearHomeostasis":
+        target = cfg["target"]
+        k = conn.postsyn_receptive((target - mon["spike_rate"].peek()) / target).mean(dim=-1)
+        k = k * (-a if cfg["param"] == "delay" else a)
+        return f"homeo {cfg['red']} {rows_s(k.reshape(k.shape[0], -1))}"
     # spike-time based trainers
     t_post = conn.postsyn_receptive(mon["spike_post"].peek())
     if f == "KernelSTDP":
         t_pre = recv_pre(mon["spike_pre"])
         t_delta = t_pre - t_post
-    elif f != "LinearHomeostasis":
+    else:
         t_pre = conn.presyn_receptive(mon["spike_pre"].peek())
         t_delta = t_pre - t_post - conn.delay.unsqueeze(-1)
     if f in KERNEL:
@@ -263,11 +268,6 @@ def request_line(cfg, layer, unit):
         if f == "DelayAdjustedMSTDP":      # dpost = ge (lr_pos = a), dpre = lt (lr_neg = c)
             return three_factor_line("damstdp", cfg, B, red, ge, lt, a, c, lt=False)
         return three_factor_line("damstdpd", cfg, B, red, ge, lt, a, c, lt=True)   # dpost = ge (lr_neg = a), dpre = lt (lr_pos = c)
-    if f == "LinearHomeostasis":
-        target = cfg["target"]
-        k = conn.postsyn_receptive((target - mon["spike_rate"].peek()) / target).mean(dim=-1)
-        k = k * (-a if cfg["param"] == "delay" else a)
-        return f"homeo {cfg['red']} {rows_s(k.reshape(k.shape[0], -1))}"
     raise AssertionError(f)
 
 
@@ -302,6 +302,10 @@ def real_views(acc, like):
     return m, f"net={hexs(p - n)} nonneg={b(nonneg)}", (p - n).reshape(-1)
 
 
+class TrainerRaised(Exception):
+    pass
+
+
 def run_case(cfg):
     """-> list of records {line, m, s, net, step}: one per trainer call"""
     B, kind = cfg["B"], cfg["layer"]
@@ -318,10 +322,13 @@ def run_case(cfg):
         _ = layer(pre_t, neuron_kwargs={"override": post_t})
         for n in layer.connection.updater.names:
             delattr(layer.connection.updater, n)
-        if cfg["family"] in THREE_FACTOR:
-            trainer(signal_of(cfg, B), cfg["scale"])
-        else:
-            trainer()
+        try:
+            if cfg["family"] in THREE_FACTOR:
+                trainer(signal_of(cfg, B), cfg["scale"])
+            else:
+                trainer()
+        except Exception as e:
+            raise TrainerRaised(f"{type(e).__name__}: {e}") from e
         line = request_line(cfg, layer, unit)
         acc = getattr(layer.connection.updater, pname)
         m, s, net = real_views(acc, getattr(layer.connection, pname))
@@ -434,17 +441,20 @@ def fam_key(cfg):
     return cfg["family"] + (":" + cfg["param"] if cfg["family"] == "LinearHomeostasis" else "")
 
 
-def is_d9(rec, resp_s):
-    """the homeostasis split as the code has it: potentiating part as specified, "depressive" part
-    equal to MINUS the specified one and not of the right sign"""
+def is_d9(rec, dm, ds):
+    """known finding D9 exactly: the real parts equal the code-shaped transcription
+    `(reduce(k.clamp_min(0)), reduce(k.clamp_max(0)))`, the potentiating part is as specified, and the
+    only deviation is a "depressive" part that is <= 0 (negative somewhere) instead of >= 0"""
     try:
+        if not view_close(rec["m"], dm):
+            return False
         rp, rn = [kv.split("=", 1)[1] for kv in rec["s"].split()]
-        sp, sn = [kv.split("=", 1)[1] for kv in resp_s.split()]
+        sp, sn = [kv.split("=", 1)[1] for kv in ds.split()]
         if not vec_close(rp, sp):
             return False
         a = [hex2f(x) for x in rn.split(",")]
         c = [hex2f(x) for x in sn.split(",")]
-        return all(x <= 0 for x in a) and all(abs(x + y) <= 1e-9 * max(1.0, abs(y)) for x, y in zip(a, c)) and any(x < 0 for x in a)
+        return all(x <= 0 for x in a) and all(y >= 0 for y in c) and (any(x < 0 for x in a) or any(y > 0 for y in c))
     except Exception:
         return False
 
@@ -472,9 +482,9 @@ def explore(ctx) -> Exploration:
         for cfg in cases:
             try:
                 recs = run_case(cfg)
-            except Exception as e:
+            except TrainerRaised as e:
                 ex.findings.append(Finding(kind="spec", key=f"C09:raises:{fam_key(cfg)}",
-                                           what=f"{cfg['family']} raised {type(e).__name__}: {e}", case={"config": slim(cfg)}))
+                                           what=f"{cfg['family']}.forward raised {e}", case={"config": slim(cfg)}))
                 recs = []
             runs.append(recs)
     finally:
@@ -506,7 +516,7 @@ def explore(ctx) -> Exploration:
             ex.count("request", rec["line"].split()[0] + ":" + rec["line"].split()[1])
             bad = None
             if not view_close(rec["s"], ds):
-                if cfg["family"] == "LinearHomeostasis" and is_d9(rec, ds):
+                if cfg["family"] == "LinearHomeostasis" and is_d9(rec, dm, ds):
                     bad = ("spec", KNOWN_D9, f"LinearHomeostasis({cfg['param']}) hands a depressive part <= 0: observed `{rec['s']}`, "
                                              f"the split of the signed term must be `{ds}`; the applied change is |k|")
                 else:
